@@ -10,6 +10,7 @@ import (
 	"encoding/json"
 	"fmt"
 	"io"
+	"sort"
 	"testing"
 
 	"github.com/go-logr/logr"
@@ -40,6 +41,7 @@ type C03Plan struct {
 	Retry    bool      `json:"retry,omitempty"`    // receive: a first receipt dies when the table object is written, prune runs, the transfer is repeated
 	Reingest string    `json:"reingest,omitempty"` // doctor: repair through ingest.ReingestTable instead of doctor.Resolve: "index" (duplicates looked for in the block indices) | "blocks" (in the rows)
 	ReadSeed uint64    `json:"read_seed,omitempty"` // positions read back through diff.TableReader / diff.RowListReader
+	Defect   string    `json:"defect,omitempty"`   // doctor: what is wrong with the planted table: "" (an adjacent duplicated row) | rowscount (declares one row too many) | idxcount (one block index fewer than blocks) | idxmissing (a listed block index is absent) | pkrange (key index past the columns: repaired by dropping the key)
 	SwapIdx  bool      `json:"swap_idx,omitempty"` // receive: afterwards the source offers a damaged copy of the table (block indices of two blocks exchanged); it is refused, or what is stored is sound
 	DupEdge  bool      `json:"dup_edge,omitempty"` // ingest: the input repeats the lines whose keys end / start a block (positions 254, 255, 509, 510 in key order)
 }
@@ -71,6 +73,9 @@ func init() {
 			}
 			p.ReadSeed = r.Sub("readers").Uint64()
 			p.SwapIdx = r.Sub("swapidx").Chance(0.5)
+			if rd := r.Sub("defect"); rd.Chance(0.4) {
+				p.Defect = Pick(rd, []string{"rowscount", "idxcount", "idxmissing", "pkrange"})
+			}
 			if r.Chance(0.4) {
 				p.NCols = max(p.NCols, r.Range(2, 5))
 				p.KeyCols = r.Perm(p.NCols)[:r.Range(2, min(4, p.NCols))]
@@ -400,6 +405,17 @@ func execC03(t *testing.T, raw json.RawMessage, res *Result) {
 		}
 		at := p.DupAt % len(sorted)
 		bad := append(append([][]string{}, sorted[:at+1]...), sorted[at:]...)
+		switch p.Defect {
+		case "":
+		case "rowscount", "idxcount", "idxmissing", "pkrange":
+			if p.Reingest != "" {
+				p.Reingest = "" // ReingestTable looks for duplicated rows only
+			}
+			bad = sorted
+		default:
+			res.Invalid("defect")
+			return
+		}
 		tbl := &objects.Table{Columns: cols, RowsCount: uint32(len(bad))}
 		pkIdx, _ := pkIndices(cols, pk)
 		for _, u := range pkIdx {
@@ -429,6 +445,19 @@ func execC03(t *testing.T, raw json.RawMessage, res *Result) {
 			}
 			tbl.Blocks = append(tbl.Blocks, bs)
 			tbl.BlockIndices = append(tbl.BlockIndices, is)
+		}
+		switch p.Defect {
+		case "rowscount":
+			tbl.RowsCount++
+		case "idxcount":
+			tbl.BlockIndices = tbl.BlockIndices[:len(tbl.BlockIndices)-1]
+		case "idxmissing":
+			st.RawDelete("blkidx/" + string(tbl.BlockIndices[at%len(tbl.BlockIndices)]))
+		case "pkrange":
+			tbl.PK = []uint32{uint32(len(cols))}
+		}
+		if p.Defect != "" {
+			res.probe("doctor_defect_"+p.Defect, 1)
 		}
 		var tb bytes.Buffer
 		tbl.WriteTo(&tb)
@@ -514,6 +543,7 @@ func execC03(t *testing.T, raw json.RawMessage, res *Result) {
 		}
 		var derr error
 		var newHead []byte
+		var resolution string
 		st.Retain = p.Retain
 		bo := Bubble(t, 0, func(mainDone *bool) {
 			d := doctor.NewDoctor(st, rs, conf.User{Name: "u", Email: "u@x"}, logr.Discard())
@@ -536,6 +566,7 @@ func execC03(t *testing.T, raw json.RawMessage, res *Result) {
 				derr = fmt.Errorf("planted duplicate at row %d not diagnosed", at)
 				return
 			}
+			resolution = string(issues[0].Resolution)
 			derr = d.Resolve(issues)
 			newHead, _ = rs.Get("heads/main")
 			*mainDone = true
@@ -547,19 +578,44 @@ func execC03(t *testing.T, raw json.RawMessage, res *Result) {
 			res.Violate("doctor-error", "diagnose/resolve of a table with a duplicated row failed: %v", derr)
 			return
 		}
+		if p.Defect != "" && resolution == string(doctor.RemoveResolution) {
+			// the repository cannot read the planted table at all and drops the commit: no table is produced
+			res.probe("doctor_defect_"+p.Defect+"_commit_removed", 1)
+			res.Skip("planted table unreadable: commit removed, no table produced")
+			return
+		}
 		nc := rawCommit(st, newHead)
 		if nc == nil {
 			res.Violate("doctor-error", "after Resolve heads/main does not point at a readable commit")
 			return
 		}
 		sum = nc.Table
-		if bytes.Equal(sum, badSum) {
+		if bytes.Equal(sum, badSum) && p.Defect != "idxmissing" { // (a table whose only defect is an absent block index is repaired in place: the re-ingest writes the index back)
 			res.Violate("doctor-not-repaired", "Resolve left the branch on the defective table")
 			return
 		}
-		_, got, err := ReadTableRaw(st, sum)
+		ntbl, got, err := ReadTableRaw(st, sum)
 		if err != nil || len(got) != len(sorted) {
-			res.Violate("doctor-rows-wrong", "repaired table has %d rows (err %v), the de-duplicated table has %d", len(got), err, len(sorted))
+			res.Violate("doctor-rows-wrong", "repaired table (planted defect %q) has %d rows (err %v), the sound table has %d", p.Defect, len(got), err, len(sorted))
+			return
+		}
+		if p.Defect == "pkrange" {
+			if len(ntbl.PK) != 0 {
+				res.Violate("doctor-not-repaired", "the key index past the columns was repaired into key %v, not dropped", ntbl.PK)
+				return
+			}
+			a, b := append([][]string(nil), got...), append([][]string(nil), sorted...)
+			byBytes := func(x [][]string) {
+				sort.Slice(x, func(i, j int) bool { return string(encStrList(x[i])) < string(encStrList(x[j])) })
+			}
+			byBytes(a)
+			byBytes(b)
+			if !sameRows(a, b) {
+				res.Violate("doctor-rows-wrong", "the table repaired by dropping the key does not hold the rows of the planted one")
+				return
+			}
+		} else if !sameRows(got, sorted) {
+			res.Violate("doctor-rows-wrong", "repaired table (planted defect %q) holds other rows than the sound table", p.Defect)
 			return
 		}
 	default:
